@@ -35,7 +35,8 @@ theorem symmetrizeCsr_ok (N : Nat) (c : Csr K) (hw : c.wellFormed N = true) (hd 
       (∀ n ≤ N, out.R n = symRowOf (rcOf N c) n) ∧
       (∀ r < N, ∀ j < rcOf N c r, ∃ y, (rowList (emissions N c) r)[j]? = some y ∧
         out.C (symRowOf (rcOf N c) r + j) = y.1 ∧
-        out.V (symRowOf (rcOf N c) r + j) = y.2 / ((Gen.TsneOps.symDivisor : Nat) : K)) := by
+        out.V (symRowOf (rcOf N c) r + j) = y.2 / ((Gen.TsneOps.symDivisor : Nat) : K)) ∧
+      out.colP.size = symRowOf (rcOf N c) N ∧ out.valP.size = symRowOf (rcOf N c) N := by
   have h := wfc_of_wellFormed N c hw
   obtain ⟨st', hrun, hcont, hcover⟩ := second_pass_ok N c h hd
   have hcells : ∀ p ∈ List.range (symRowOf (rcOf N c) N), readCell st' p = Except.ok (outCell N c st' p) := by
@@ -46,7 +47,7 @@ theorem symmetrizeCsr_ok (N : Nat) (c : Csr K) (hw : c.wellFormed N = true) (hd 
     simp [readCell, outCell, hy]
   refine ⟨⟨((List.range (N + 1)).map (symRowOf (rcOf N c))).toArray,
     (((List.range (symRowOf (rcOf N c) N)).map (outCell N c st')).map (·.1)).toArray,
-    (((List.range (symRowOf (rcOf N c) N)).map (outCell N c st')).map (·.2)).toArray⟩, ?_, ?_, ?_⟩
+    (((List.range (symRowOf (rcOf N c) N)).map (outCell N c st')).map (·.2)).toArray⟩, ?_, ?_, ?_, by simp, by simp⟩
   · unfold symmetrizeCsr
     simp only [hw, Bool.true_eq_false, if_false]
     have hrun' : List.foldlM (fillStep c (symRowOf (List.foldl (countStep c) (fun _ => 0) (csrEntries N c))))
@@ -116,7 +117,7 @@ theorem out_entry (N : Nat) (c : Csr K) (hw : c.wellFormed N = true) (hd : Disti
     (hout : symmetrizeCsr N c = .ok out) (n : Nat) (hn : n < N) (m : Nat) :
     out.entry n m = ((rowList (emissions N c) n).map fun y =>
       if y.1 = m then y.2 / ((Gen.TsneOps.symDivisor : Nat) : K) else 0).sum := by
-  obtain ⟨out', hout', hR, hcells⟩ := symmetrizeCsr_ok N c hw hd
+  obtain ⟨out', hout', hR, hcells, -, -⟩ := symmetrizeCsr_ok N c hw hd
   rw [hout] at hout'
   injection hout' with he
   subst he
